@@ -44,10 +44,10 @@ type ContCase struct {
 	Limit            uint32 // collision limit (0 = leave default)
 	SetLimit         bool
 	HipClasses       uint64 // > 0: colliding hash-input provider (Callbacks.HipClasses) under the default digester
-	BatchStart       int  // > 0: the root starts as a container built by the batch constructor from that many generated scalars
-	DrainedIsOneSlab bool // C09: after DrainAtEnd the container must occupy exactly one slab and nothing else may remain
-	DrainAtEnd       bool // after the phases: remove every element one by one (no bulk pop), then regrow a little
-	Temp             bool // root at the temporary address
+	BatchStart       int    // > 0: the root starts as a container built by the batch constructor from that many generated scalars
+	DrainedIsOneSlab bool   // C09: after DrainAtEnd the container must occupy exactly one slab and nothing else may remain
+	DrainAtEnd       bool   // after the phases: remove every element one by one (no bulk pop), then regrow a little
+	Temp             bool   // root at the temporary address
 	Final            func(w *World, root *Node, res *CaseResult)
 	PerOp            func(w *World, root *Node) error
 	AfterCommit      func(w *World, root *Node) error
